@@ -2,7 +2,7 @@
    Only statements, `exact`, and Print Assumptions.  [rw] is the closure (reflexive, transitive, under and/or/not contexts) of:
    commutativity and (re-)association of and_ / or_, mirroring a comparison (a < b as b > a, a literal on either side),
    contains(c, i) vs in_(i, c). *)
-From EQL Require Import Base Values Syntax Spec Generated Elab Elab_Facts EvalPure EvalPure_Facts Query_Facts Elab_Frag Quant_Facts.
+From EQL Require Import Base Values Syntax Spec Generated Elab Elab_Facts EvalPure EvalPure_Facts Query_Facts Elab_Frag Quant_Facts Dedup Dedup_Facts.
 
 (* every composition of the listed rewrites preserves truth under every assignment *)
 Theorem C18_rewrite_sat : forall h dom c c', rw c c' -> forall e, sat h dom c e = sat h dom c' e.
@@ -19,6 +19,29 @@ Proof.
   apply (same_sat_same_rows h dom U ND xs sc sc' ic ic' B B' E E'); [|exact HU|exact NE]. now apply rw_sat.
 Qed.
 Print Assumptions C18_invariant.
+
+(* ... and the same for the evaluator WITH its de-duplication of rows (Dedup.v: the per-operator seen sets keyed on what
+   `_required_variables_from_child_` reports - the tables are re-extracted from symbolic.py on every run, and run_queryD is the model
+   the implementation is compared with row by row): whatever the rewrites do to the order of operands, hence to which rows an
+   operator drops as duplicates, the result SET of every projection stays the same *)
+Theorem C18_invariant_dedup : forall h dom U xs sc sc' ic ic',
+  (forall x, In x U -> NoDup (dom x)) -> rw sc sc' -> sbasic U sc = true -> sbasic U sc' = true ->
+  elab sc = Some ic -> elab sc' = Some ic' -> (forall x, In x xs -> In x U) -> (forall x, In x U -> dom x <> []) ->
+  forall r, In r (run_queryD h dom (map TVar xs) (Some ic)) <-> In r (run_queryD h dom (map TVar xs) (Some ic')).
+Proof.
+  intros h dom U xs sc sc' ic ic' ND R B B' E E' HU NE r.
+  assert (X : forall s s' i i', (forall e, sat h dom s e = sat h dom s' e) -> sbasic U s = true -> sbasic U s' = true ->
+              elab s = Some i -> elab s' = Some i' ->
+              In r (run_queryD h dom (map TVar xs) (Some i)) -> In r (run_queryD h dom (map TVar xs) (Some i'))).
+  { intros s s' i i' Q Bs Bs' Es Es' H.
+    destruct (dedup_sound h dom U ND xs i r (elab_basic U s i Es Bs) HU NE H) as (e & V & T & ->).
+    apply (dedup_complete h dom U ND xs i' e (elab_basic U s' i' Es' Bs') HU V).
+    rewrite (elab_sat h dom s' i' Es' e), <- Q, <- (elab_sat h dom s i Es e). exact T. }
+  split; [apply (X sc sc' ic ic') | apply (X sc' sc ic' ic)]; try assumption.
+  - now apply rw_sat.
+  - intros e. symmetry. now apply rw_sat.
+Qed.
+Print Assumptions C18_invariant_dedup.
 
 (* permuting the elements of a domain (dom' has the same members) does not change the result set *)
 Theorem C18_domain_permutation : forall h dom dom' U xs sc ic,
